@@ -102,16 +102,16 @@ func pkgDir(p string) string {
 // buildOverlay maps virtual /repo paths to harness file contents.
 func buildOverlay(withTests bool) (map[string][]byte, error) {
 	ov := map[string][]byte{}
-	tmpl, err := os.ReadFile(filepath.Join(verifDir, "harness/common/api.go.tmpl"))
-	if err != nil {
-		return nil, err
-	}
 	for _, p := range []string{"engine", "prolog"} {
 		files, _ := filepath.Glob(filepath.Join(verifDir, "harness", p, "*.go"))
 		if len(files) == 0 {
 			continue
 		}
-		ov[filepath.Join(pkgDir(p), "zz_verif_api.go")] = []byte(strings.ReplaceAll(string(tmpl), "PKGNAME", p))
+		tmpl, err := os.ReadFile(filepath.Join(verifDir, "harness/common/api_"+p+".go.tmpl"))
+		if err != nil {
+			return nil, err
+		}
+		ov[filepath.Join(pkgDir(p), "zz_verif_api.go")] = tmpl
 		for _, f := range files {
 			b, err := os.ReadFile(f)
 			if err != nil {
@@ -124,9 +124,9 @@ func buildOverlay(withTests bool) (map[string][]byte, error) {
 			ov[filepath.Join(pkgDir(p), "zz_verif_"+base)] = b
 		}
 		if withTests {
-			rt, err := os.ReadFile(filepath.Join(verifDir, "harness/common/replay_test.go.tmpl"))
+			rt, err := os.ReadFile(filepath.Join(verifDir, "harness/common/replay_test_"+p+".go.tmpl"))
 			if err == nil {
-				ov[filepath.Join(pkgDir(p), "zz_verif_replay_test.go")] = []byte(strings.ReplaceAll(string(rt), "PKGNAME", p))
+				ov[filepath.Join(pkgDir(p), "zz_verif_replay_test.go")] = rt
 			}
 		}
 	}
